@@ -27,6 +27,7 @@ MODS = ("torch", "F", "np", "math")
 
 # positional parameter order after the receiver / input
 SIGS = {
+    "count_nonzero": ["dim"],
     "sum": ["dim", "keepdim"], "mean": ["dim", "keepdim"], "prod": ["dim", "keepdim"], "logsumexp": ["dim", "keepdim"], "amax": ["dim", "keepdim"], "amin": ["dim", "keepdim"],
     "std": ["dim", "unbiased", "keepdim"], "var": ["dim", "unbiased", "keepdim"], "norm": ["p", "dim", "keepdim"],
     "cumsum": ["dim"], "cumprod": ["dim"], "softmax": ["dim"], "log_softmax": ["dim"], "unsqueeze": ["dim"], "squeeze": ["dim"], "argmax": ["dim", "keepdim"], "argmin": ["dim", "keepdim"],
@@ -171,6 +172,8 @@ class _Canon(ast.NodeTransformer):
             return self.visit_BinOp(ast.copy_location(ast.BinOp(left=args[0], op=BIN[name](), right=args[1]), n))
         if name in CMP and len(args) == 2 and not kws:
             return self.visit_Compare(ast.copy_location(ast.Compare(left=args[0], ops=[CMP[name]()], comparators=[args[1]]), n))
+        if name == "count_nonzero" and args and isinstance(args[0], (ast.Compare, ast.BoolOp)):
+            name = "sum"  # of a boolean tensor: the number of True entries
         if name == "neg" and len(args) == 1 and not kws:
             return ast.copy_location(ast.UnaryOp(op=ast.USub(), operand=args[0]), n)
         if name == "square" and len(args) == 1 and not kws:
